@@ -516,7 +516,7 @@ def run_shard(spec, seed, tier):
         res.stages["overlap"] = res.evaluations
         return res
     # composite search under both backends
-    n = 250 if tier == "quick" else 2500
+    n = 600 if tier == "quick" else 3000
     res, out_c = run_hyp(seed, tier, n, "c")
     # pure-python backend in a sub-process with bitstruct.c poisoned
     with tempfile.TemporaryDirectory(prefix="verif-c02-") as td:
